@@ -22,9 +22,16 @@ Del(tbl, S) == [x \in DOMAIN tbl \ S |-> tbl[x]]
 DoOpen(tbl, s, conn, now, len, raiseAt) ==
     Put(tbl, s, [owner |-> conn, created |-> now, linger |-> 0, pos |-> 0, len |-> len, raiseAt |-> raiseAt])
 
-\* fetching the next item: [tbl, out] with out = "item" (value = pos+1) | "stop" | "raise" | "gone"
-DoNext(tbl, s, conn) ==
+\* a stream is over its time when it has outlived the configured lifetime, or when its connection ended longer ago than the
+\* linger period
+Expired(e, now, Lifetime, Linger) ==
+    \/ Lifetime > 0 /\ now - e.created > Lifetime
+    \/ Linger > 0 /\ e.linger > 0 /\ now - e.linger > Linger
+\* fetching the next item: [tbl, out] with out = "item" (value = pos+1) | "stop" | "raise" | "gone".  A stream that is over its
+\* time is gone for whoever asks, whether or not the periodic housekeeping has come by since
+DoNext(tbl, s, conn, now, Lifetime, Linger) ==
     IF ~Has(tbl, s) THEN [tbl |-> tbl, out |-> "gone", item |-> 0]
+    ELSE IF Expired(tbl[s], now, Lifetime, Linger) THEN [tbl |-> Del(tbl, {s}), out |-> "gone", item |-> 0]
     ELSE LET e == tbl[s]
              e2 == IF e.owner = 0 THEN [e EXCEPT !.owner = conn, !.linger = 0] ELSE e     \* a returning client takes it over again
              nxt == e.pos + 1 IN
@@ -39,9 +46,6 @@ DoDisconnect(tbl, conn, now, Linger) ==
     THEN [s \in DOMAIN tbl |-> IF tbl[s].owner = conn THEN [tbl[s] EXCEPT !.owner = 0, !.linger = now] ELSE tbl[s]]
     ELSE Del(tbl, {s \in DOMAIN tbl : tbl[s].owner = conn})
 
-Expired(e, now, Lifetime, Linger) ==
-    \/ Lifetime > 0 /\ now - e.created > Lifetime
-    \/ Linger > 0 /\ e.linger > 0 /\ now - e.linger > Linger
 DoHousekeep(tbl, now, Lifetime, Linger) == Del(tbl, {s \in DOMAIN tbl : Expired(tbl[s], now, Lifetime, Linger)})
 
 -----------------------------------------------------------------------------
@@ -57,7 +61,7 @@ Open(s, c) == /\ s \notin opened /\ c \in live /\ opened' = opened \cup {s}
               /\ \E len \in 0..MaxLen, r \in 0..MaxLen : r <= len + 1 /\ table' = DoOpen(table, s, c, now, len, r)
               /\ UNCHANGED <<now, live, got, ended>>
 Next_(s, c) == /\ s \in opened /\ ended[s] = "no" /\ c \in live
-               /\ LET r == DoNext(table, s, c) IN
+               /\ LET r == DoNext(table, s, c, now, Lifetime, Linger) IN
                   /\ table' = r.tbl
                   /\ got' = IF r.out = "item" THEN [got EXCEPT ![s] = Append(@, r.item)] ELSE got
                   /\ ended' = IF r.out = "item" THEN ended ELSE [ended EXCEPT ![s] = r.out]
@@ -79,5 +83,7 @@ Prefix == \A s \in StreamIds : got[s] = [i \in 1..Len(got[s]) |-> i]
 \* a stream the server has forgotten never yields items again: every fetch on it reports it gone
 ForgottenStaysGone == [][\A s \in StreamIds : (s \in opened /\ ~Has(table, s)) => ~Has(table', s)]_vars
 \* nothing lingers past its time once housekeeping has run
+\* a client that comes back after a stream's time is up gets no items from it, housekeeping or not
+NoItemPastDeadline == [][\A s \in StreamIds : (Len(got'[s]) > Len(got[s])) => (Has(table, s) /\ ~Expired(table[s], now, Lifetime, Linger))]_vars
 NoExpiredAfterHousekeeping == [][Housekeep => \A s \in DOMAIN table' : ~Expired(table'[s], now, Lifetime, Linger)]_vars
 =============================================================================
